@@ -18,6 +18,9 @@ Check(r, sn) ==
       \o (IF r.ok /\ r.derived /\ r.written \in DOMAIN sn /\ sn[r.written] # r.key THEN <<"identifier-shared">> ELSE <<>>)
       \o (IF r.ok /\ (r.key \in UDerivedKeys) # r.derived THEN <<"kind-changed">> ELSE <<>>)
       \o (IF r.ok /\ ~(r.cbor /\ r.json) THEN <<"unit-round-trip">> ELSE <<>>)
+    \* a spelling the build's own unit parser knows but the vocabulary of the specification does not: it must still
+    \* survive serialisation (that it is unknown is reported as drift by the driver)
+    [] r.kind = "unit_unknown" -> IF r.ok /\ ~r.cbor THEN <<"unit-round-trip">> ELSE IF r.err # "" THEN <<"unit-round-trip">> ELSE <<>>
     [] r.kind = "compound" -> IF r.parsed /\ (r.err # "" \/ r.cbor # r.before \/ r.json # r.before) THEN <<"compound-round-trip">> ELSE <<>>
     [] r.kind = "rational" -> IF r.cbor # r.before \/ r.json # r.before THEN <<"rational-round-trip">> ELSE <<>>
     [] r.kind = "constant" -> IF ~r.decoded \/ ~r.same THEN <<"constant-lossy">> ELSE <<>>
